@@ -19,6 +19,7 @@ use vhost::vhost_user::{Backend, FrontendReqHandler};
 
 struct Session {
     proxy: Backend,
+    proxy_fd: RawFd,
     tap_b: std::os::unix::net::UnixStream, // our end of the proxy's socket
     srv: FrontendReqHandler<Mutex<RecFrontend>>,
     tap_f: RawFd, // our end of the handler's socket
@@ -28,6 +29,7 @@ struct Session {
 
 fn session(reply_ack: bool) -> Session {
     let (a, tap_b) = sys::pair();
+    let proxy_fd = a.as_raw_fd();
     let proxy = Backend::from_stream(a);
     proxy.set_shared_object_flag(true);
     proxy.set_shmem_flag(true);
@@ -36,7 +38,7 @@ fn session(reply_ack: bool) -> Session {
     let mut srv = FrontendReqHandler::new(h.clone()).expect("FrontendReqHandler");
     srv.set_reply_ack_flag(reply_ack);
     let tap_f = unsafe { libc::dup(srv.get_tx_raw_fd()) };
-    Session { proxy, tap_b, srv, tap_f, h, reply_ack }
+    Session { proxy, proxy_fd, tap_b, srv, tap_f, h, reply_ack }
 }
 
 fn one(cfg: &Cfg, s: &mut Session, op: &BeOp, out: &FeOut, seqno: u64, case: &str) -> bool {
@@ -89,6 +91,29 @@ fn one(cfg: &Cfg, s: &mut Session, op: &BeOp, out: &FeOut, seqno: u64, case: &st
     for a in &acks {
         let _ = sys::send_all(s.tap_b.as_raw_fd(), &a.all_bytes(), &[]);
     }
+    // everything the handler wrote has been forwarded: a proxy call still parked in recvmsg with
+    // nothing queued for it will never return (released by shutting its socket down)
+    let mut never_returns = false;
+    if !returned {
+        let t = tid.load(std::sync::atomic::Ordering::SeqCst);
+        let mut streak = 0;
+        sys::wait_until(10_000, || {
+            if rx.try_recv().is_ok() || th.is_finished() {
+                return true;
+            }
+            if sys::inq(s.proxy_fd) == 0 && sys::parked_in(t, &[sys::SYS_RECVMSG]) && sys::inq(s.proxy_fd) == 0 {
+                streak += 1;
+            } else {
+                streak = 0;
+            }
+            if streak >= 5 {
+                never_returns = true;
+                unsafe { libc::shutdown(s.proxy_fd, libc::SHUT_RDWR) };
+                return true;
+            }
+            false
+        });
+    }
     let (res, file) = th.join().expect("proxy thread");
     let log: Vec<Call> = s.h.lock().unwrap().log[before..].to_vec();
     report::eval(1);
@@ -134,6 +159,9 @@ fn one(cfg: &Cfg, s: &mut Session, op: &BeOp, out: &FeOut, seqno: u64, case: &st
         if !returned_before_handling {
             problems.push(("proxy-awaited-without-reply-ack".into(), "the proxy call did not return until the request was handled".into()));
         }
+    }
+    if never_returns {
+        problems.push(("proxy-call-never-returns".into(), format!("handler returned {out:?}; {} acknowledgement(s) were written and forwarded; the proxy call stayed parked in recvmsg with nothing queued", acks.len())));
     }
     if let Err(p) = &handled {
         problems.push(("panic".into(), format!("{} at {}", p.msg, p.location)));
